@@ -378,6 +378,8 @@ def add_number(reg):
                               'minimal': 'blocksize == 0 ==> (len(result) >= 1 and (spec.keys.ival(n) == 0 ==> result == bytes(1)) and (spec.keys.ival(n) > 0 ==> result[0] != 0))',
                               'blocks': 'imp(blocksize > 0, len(result) >= blocksize)',
                               'fits': 'imp(conj(blocksize > 0, spec.keys.ival(n) < pow2(8 * blocksize)), len(result) == blocksize)',
+                              'i2osp': 'imp(conj(blocksize > 0, 0 <= spec.keys.ival(n), spec.keys.ival(n) < pow2(8 * blocksize)), '
+                                       'result == i2osp(spec.keys.ival(n), blocksize))',
                               'too_large': 'imp(conj(blocksize > 0, spec.keys.ival(n) >= pow2(8 * blocksize)), len(result) > blocksize)',
                               'cpython_len': 'len(result) < 9223372036854775808'},
                      pure=True, modifies=[],
